@@ -257,3 +257,17 @@ def run(f, fixture, rep, cfg, tier):
     # times given as chrono / SystemTime values (changelog entries, source date) are stored as the instant they denote
     rep.rule("R5", "time inputs are converted exactly (C20's conversion tables)")
     rep.include("c20", f, fixture, cfg, tier, "R5", "conversion of a time given to the builder", floor=8)
+
+    # the FileOptions flag helpers add their flag to what was set before (`.is_ghost().is_config_noreplace()` keeps GHOST):
+    # every write of `inner.flag` in a builder method goes through insert / |= (never a plain assignment)
+    n_flag = 0
+    for b in [x for x in f.body_list if "FileOptionsBuilder" in (x.impl_self or "") and x.kind != "closure" and not x.derived]:
+        for bb in b.reachable():
+            for st in b.stmts(bb):
+                if st["k"] == "assign" and [p.get("n") for p in st["lhs"]["p"] if isinstance(p, dict) and "n" in p][-2:] == ["inner", "flag"] or \
+                   (st["k"] == "assign" and [p.get("n") for p in st["lhs"]["p"] if isinstance(p, dict) and "n" in p][-1:] == ["flag"] and "FileOptions" in b.local_ty(st["lhs"]["l"])):
+                    rep.finding("R3", "flag-helper|%s|overwrites" % fmt_key(b.path), "%s assigns the file flags instead of adding to them: flags set by earlier helper calls are lost" % b.path, "%s:%s" % (b.file, st.get("line")))
+        for c in b.calls():
+            if re.search(r"FileFlags>::insert$|FileFlags::insert$|<impl constants::FileFlags>::insert$", c.decl):
+                n_flag += 1
+    rep.floor("R3", "flag helpers that insert into the existing flags", n_flag, 5)
